@@ -82,8 +82,12 @@ def build_traces(path, tier, seed):
         x, shape = gen.record(rng, n, amp=float(10.0 ** rng.uniform(-2, 2)))
         dt = [0.01, 0.02, 0.005, 0.5, 0.1][i % 5]
         k = int(rng.integers(1, 4))
-        choice = i % 4
-        if choice == 0:
+        choice = int(rng.integers(5))
+        if choice == 4:       # every delay shorter than half a step (no padding is needed), or one such row next to longer ones
+            tts = [float(rng.choice([0.0, 0.2, 0.45])) * dt for _ in range(k)]
+            if k > 1 and rng.integers(2):
+                tts[-1] = float(rng.integers(1, 6)) * dt
+        elif choice == 0:
             tts = [0.0] + [float(rng.integers(1, 8)) * dt / 2 for _ in range(k - 1)]
         elif choice == 1:
             tts = [float(rng.integers(0, 12)) * dt / 2 for _ in range(k)]           # integer multiples of dt/2
@@ -91,12 +95,12 @@ def build_traces(path, tier, seed):
             tts = [float(rng.uniform(0, 5)) * dt for _ in range(k)]                  # fractional delays
         else:
             tts = [0.15, 0.3, 0.35][:k] if dt == 0.1 else [float(rng.integers(1, 40)) * 0.005 for _ in range(k)]   # 2*tt/dt a hair below an integer
-        nodal, trim, start = bool(i % 2), bool((i // 2) % 2), bool((i // 4) % 2)
-        if i % 3 == 0:
+        nodal, trim, start = bool(rng.integers(2)), bool(rng.integers(2)), bool(rng.integers(2))
+        if rng.integers(3) == 0:
             ru, rd = np.array(rng.uniform(0.3, 1.0, size=k)), np.array(rng.uniform(0.3, 1.0, size=k))
         else:
             ru, rd = float(rng.uniform(0.3, 1.0)), float(rng.uniform(0.3, 1.0))
-        stt = float([0.0, dt, 3.5 * dt, rng.uniform(0, 10) * dt][i % 4])
+        stt = float([0.0, dt, 3.5 * dt, rng.uniform(0, 10) * dt][int(rng.integers(4))])
         stt = min(stt, 0.5 * (n - 1) * dt)         # the input motion reaches the surface within the record
         with warnings.catch_warnings():
             warnings.simplefilter("ignore")
@@ -116,6 +120,26 @@ def build_traces(path, tier, seed):
             single = rows(surface.calc_surface_energy(s, np.array([tts[j]]), nodal=nodal, up_red=ru, down_red=rd, trim=True))[0]
             add({"kind": "rel", "clause": "RowEqualsSingle", "x": enc_seq(single), "y": enc_seq(e[j]), "f": enc(1.0)},
                 {"kind": "rel", "law": "RowEqualsSingle", "row": j, "n": n})
+    # 2c. each row of a batch equals the single-travel-time result under EVERY option combination (rows are compared on
+    #     their common length: without trimming the batch decides how much padding every row gets)
+    for rix in range(2 if tier == "quick" else 8):
+        n = int(rng.integers(9, 30))
+        x = rng.standard_normal(n)
+        dt = [0.5, 0.01, 0.02, 0.1][rix % 4]
+        s = eqsig.AccSignal(x, dt)
+        batch = np.array([0.0, 0.3 * dt, 1.5 * dt, 3.0 * dt])
+        for nodal, trim, start in itertools.product([True, False], repeat=3):
+            for stt in (0.0, dt, 2.5 * dt):
+                kw = dict(nodal=nodal, up_red=1.0, down_red=0.6, stt=stt, trim=trim, start=start)
+                for fn_name in ("calc_surface_energy", "calc_cum_abs_surface_energy"):
+                    fn = getattr(surface, fn_name)
+                    e = rows(fn(s, batch, **kw))
+                    for j in range(len(batch)):
+                        single = rows(fn(s, batch[j:j + 1], **kw))[0]
+                        m = min(len(single), len(e[j]))
+                        add({"kind": "rel", "clause": "RowEqualsSingle", "x": enc_seq(single[:m]), "y": enc_seq(e[j][:m]), "f": enc(1.0)},
+                            {"kind": "rel", "law": "RowEqualsSingle", "fn": fn_name, "row": j, "n": n, "dt": dt, "tt/dt": float(batch[j] / dt),
+                             "nodal": nodal, "trim": trim, "start": start, "stt/dt": stt / dt})
     # 2b. whole- and half-sample delays written as decimal travel times (2*tt/dt lands a hair below/above an integer)
     xr = np.sin(np.arange(24) / 2.0) + 0.3
     for dt in (0.1, 0.01, 0.02):
